@@ -65,10 +65,10 @@ CHECKS = {
    text="Deductive core (pyvc, any section length): _itp_top_atoms returns the atoms in file order and translates every bonded pair from file numbers to 0-based positions (ghost rank function, quantified array invariants); static obligation: are_connected and its callees are not recursive. Bounded contract checks of read_topology / MoleculeTop / are_connected / copy on every labelled graph on <= 4 atoms x every split of edges over bonds/constraints/pairs x decoration variants, large chains/stars/trees/forests (1000-3000 atoms) and the 16 shipped topologies against an independent parse.",
    note="bounded scope as stated; the recursion obligation is syntactic (call graph of components/__init__.py)",
    tech=TECH + " of the number->position translation (pyvc) + one static call-graph obligation + " + BND, ref="DESIGN.md section 6 C15"),
- "C16": dict(cat="other", engine="smallscope",
-   text="Round-trip contracts on ItpLine (parse_itp_line + line) for every string up to length 6/7 over a small alphabet and on ItpFile read-write-read for every file of <= 4 (quick) / <= 5-6 lines over ten line kinds incl. repeated section headers and empty/multiple trailing comments, plus the 16 shipped topologies; oracle = an independent reference reading of the text. Bounded only.",
-   note="bounded scope as stated; no deductive obligation (regular expressions and split/join chains are outside what the SMT string solvers decide here)",
-   tech=BND, ref="DESIGN.md section 6 C16"),
+ "C16": dict(cat="other", engine="pyvc+smallscope",
+   text="Deductive core (pyvc, files of any number of lines): ItpFile.__init__ stores every non-header line exactly once, in the section named by the last header before it, at the position given by the number of earlier lines of that section name (so repeated section names lose nothing), sections ordered by first appearance (quantified array invariants over a ghost counting function, vacuity guarded by an explicit witness); ItpSection.append keeps every line; ItpSection.__str__ = a header line the reader's own expressions recognise + str of every kept line in order; ItpFile.write = header lines verbatim then each section once in dictionary order. Bounded: round-trip contracts on ItpLine (parse_itp_line + line) for every string up to length 6/7 over a small alphabet and on ItpFile read-write-read for every file of <= 4 (quick) / <= 5-6 lines over ten line kinds incl. repeated section headers and empty/multiple trailing comments, plus the 16 shipped topologies; oracle = an independent reference reading of the text.",
+   note="deductive part: lines are abstract (IsHdr(i), Sec(i) uninterpreted; no section literally named 'header'); the character-level content of a line (regular expressions, split/join chains) is bounded only",
+   tech=TECH + " of the section bookkeeping (pyvc, quantified invariants, z3 E-matching) + " + BND, ref="DESIGN.md section 6 C16"),
  "C17": dict(cat="proof", engine="symrun",
    text="Every postcondition clause of rotation_matrix and calcule_base taken from the property statement is discharged for all real inputs on every path of the real function (loop-free, fully symbolic => complete); the bounded float twin of the same clauses is reported separately and not counted as proved.",
    note="A1 float64 as exact reals; A2 numpy object-dtype transparency (concolically cross-checked); A4 trig axioms; trusted: z3, sympy, CPython/numpy, vf/symrun.py",
